@@ -278,27 +278,41 @@ def leak_typestate(m: HdlcModel):
             if mode == "empty" and L.get("S") is False:
                 continue
             post = sp.post
-            # effects on per-frame state
-            p2 = pend
+            boundary = post.frame in ("none", "fresh") or (L.get("F") is True and mode == "empty" and not post.appends)
+            # a step that ends a frame (or is inter-frame fill) separates the frames: what was recorded so far belongs to the old frame,
+            # what this step records after resetting a store belongs to the new one
+            p2, r2 = pend, raw
+            fill = boundary and post.frame not in ("none", "fresh")
+            if fill:
+                p2 = "prev" if p2 == "cur" else p2
+                r2 = "prev" if r2 == "cur" else r2
+            # effects on per-frame state, in program order: records made before the frame is replaced belong to the old frame
+            ri = 0
+            for tag in post.seq:
+                if tag.startswith("frame:") and boundary:
+                    p2 = "prev" if p2 == "cur" else p2
+                    r2 = "prev" if r2 == "cur" else r2
+                elif tag == "pending":
+                    pass
+                elif tag == "raw" and ri < len(post.raw_ops):
+                    op = post.raw_ops[ri]
+                    ri += 1
+                    if op == "clear":
+                        r2 = "clean"
+                    elif r2 == "prev":
+                        bad.setdefault("raw-kept", (st, sp))  # history of the previous frame still there when this frame's octets are added
+                    else:
+                        r2 = "cur"
             if post.pending == "set":
                 p2 = "cur"
             elif post.pending == "clear":
                 p2 = "clean"
-            r2 = raw
-            for op in post.raw_ops:
-                if op == "clear":
-                    r2 = "clean"
-                elif r2 == "prev":
-                    bad.setdefault("raw-kept", (st, sp))  # history of the previous frame still there when this frame's octets are added
-                else:
-                    r2 = "cur"
-            boundary = post.frame in ("none", "fresh") or (L.get("F") is True and mode == "empty" and not post.appends)
             if boundary:
                 m2 = "hunt" if post.frame == "none" else "empty"
-                if p2 == "cur":
-                    p2 = "prev"
-                if r2 == "cur":
-                    r2 = "prev"
+                if post.frame == "none":
+                    # a discarded frame's records are stale from now on (nothing is recorded while hunting)
+                    p2 = "prev" if p2 == "cur" else p2
+                    r2 = "prev" if r2 == "cur" else r2
             else:
                 m2 = mode if mode == "hunt" else ("inframe" if post.appends else mode)
             # use of stale state
